@@ -345,7 +345,7 @@ class LinearOperator(Operator):
                 input_shape=self.output_shape,
                 output_shape=self.input_shape,
                 eval_fn=lambda x: self.adj(x.conj()).conj(),
-                adj_fn=self.__call__,
+                adj_fn=lambda x: self(x.conj()).conj(),
                 input_dtype=self.input_dtype,
                 output_dtype=self.output_dtype,
             )
